@@ -204,7 +204,7 @@ impl FixtureDatabase {
 
         files_to_process.par_iter().for_each(|path| {
             debug!("Found test/conftest file: {:?}", path);
-            match std::fs::read_to_string(path) {
+            match Self::read_source(path) {
                 Ok(content) => {
                     self.analyze_file_from_disk(path.clone(), &content, false);
                 }
@@ -684,7 +684,7 @@ impl FixtureDatabase {
             .unwrap_or_else(|_| file_path.to_path_buf());
         self.plugin_fixture_files.insert(canonical, ());
 
-        if let Ok(content) = std::fs::read_to_string(file_path) {
+        if let Ok(content) = Self::read_source(file_path) {
             self.analyze_file_from_disk(file_path.to_path_buf(), &content, true);
         }
     }
@@ -1088,7 +1088,7 @@ impl FixtureDatabase {
                     let canonical = path.canonicalize().unwrap_or_else(|_| path.to_path_buf());
                     self.plugin_fixture_files.insert(canonical, ());
 
-                    if let Ok(content) = std::fs::read_to_string(path) {
+                    if let Ok(content) = Self::read_source(path) {
                         self.analyze_file_from_disk(path.to_path_buf(), &content, true);
                     }
                 }
